@@ -693,6 +693,75 @@ func bgvEmbedScenario(cf bgvu.Conf) engine.Scenario {
 	}}
 }
 
+// obtainedScenario (BGV): NewEncoder, ShallowCopy, ShallowCopy of a ShallowCopy, ShallowCopy of a used encoder —
+// NewEncoder and ShallowCopy allocate their scratch buffers (the big-integer buffer of the gap > 1 decoder in
+// particular) under separate conditions. Every level, both domains, both element types, full / short / empty vectors.
+func bgvObtainedScenario(cf bgvu.Conf) engine.Scenario {
+	name := "bgv/" + cf.Name + "/obtained"
+	return engine.Scenario{Name: name, Bound: -1, Fn: func(c *engine.Chooser) {
+		w := getBgvWorld(cf)
+		t, n := w.t, w.n
+		how := c.Choose(4, "obtained")
+		level := c.Choose(w.L+1, "level")
+		batched := c.Choose(2, "domain") == 0
+		signed := c.Bool("signed")
+		fresh := bgv.NewEncoder(w.p)
+		use := func(e *bgv.Encoder) {
+			pt := bgv.NewPlaintext(w.p, w.L)
+			v := make([]uint64, n)
+			for j := range v {
+				v[j] = uint64(3*j+1) % t
+			}
+			if err := e.Encode(v, pt); err != nil {
+				panic(err)
+			}
+			if err := e.Decode(pt, make([]uint64, n)); err != nil {
+				panic(err)
+			}
+		}
+		e := fresh
+		switch how {
+		case 1:
+			e = fresh.ShallowCopy()
+		case 2:
+			e = fresh.ShallowCopy().ShallowCopy()
+		case 3:
+			use(fresh)
+			e = fresh.ShallowCopy()
+		}
+		c.Cover("bgv-obtained", []string{"new", "copy", "copy-of-copy", "copy-of-used"}[how])
+		c.Cover("bgv-obtained-gap", fmt.Sprint(w.gap))
+		old := w.ecd
+		w.ecd = e
+		defer func() { w.ecd = old }()
+		bc := bgvCase{batched: batched, signed: signed, level: level, scale: w.scales[(level+how)%len(w.scales)]}
+		cnt := 0
+		for _, ln := range []int{n, 3, 0} {
+			res := make([]uint64, ln)
+			for j := range res {
+				res[j] = (uint64(j)*5 + 2) % t
+			}
+			var typed interface{}
+			var want []uint64
+			if signed {
+				v := make([]int64, ln)
+				for j := range v {
+					v[j] = bgvu.Centered(res[j], t)
+				}
+				typed, want = typedI(v, t)
+			} else {
+				typed, want = typedU(res, t)
+			}
+			if !w.roundTrip(c, bc, typed, want, true) {
+				return
+			}
+			cnt++
+		}
+		c.Outcome(name, how, level, batched, signed)
+		c.Count(cnt)
+	}}
+}
+
 // allScalesScenario: EncodeRingT/DecodeRingT and Encode/Decode with EVERY unit of Z_t as scale (t <= 257; a spread
 // of 64 scales including the extremes for the large moduli), both element types, batched and coefficient domains,
 // full and short vectors.
@@ -824,7 +893,7 @@ func bgvScenarios(tier string) []engine.Scenario {
 	var scs []engine.Scenario
 	scs = append(scs, bgvCornerScenario())
 	for _, cf := range bgvConfigs(tier) {
-		scs = append(scs, bgvStructureScenario(cf), bgvShortDecodeScenario(cf), bgvProductScenario(cf), bgvEmbedScenario(cf), bgvAllScalesScenario(cf))
+		scs = append(scs, bgvStructureScenario(cf), bgvShortDecodeScenario(cf), bgvProductScenario(cf), bgvEmbedScenario(cf), bgvAllScalesScenario(cf), bgvObtainedScenario(cf))
 		for _, b := range []bool{true, false} {
 			for _, s := range []bool{false, true} {
 				scs = append(scs, bgvRoundTripScenario(cf, b, s))
